@@ -52,3 +52,29 @@ func VerifC14_ParseNoPanic() {
 	verifNoPanic("C14/parse/NamePatternFromStr-no-panic", func() { NamePatternFromStr(s) })
 	verifNoPanic("C14/parse/ComponentPatternFromStr-no-panic", func() { ComponentPatternFromStr(s) })
 }
+
+// Longer values of one text component: the period-only values ("...", "....": written with three extra periods), values
+// that mix periods with other bytes, percent signs and letters.  The first byte is symbolic (all 256 values), the
+// others are enumerated from {'.', 'A', '%'} (a fully symbolic value of this length costs 4^n paths in the escaper).
+func VerifC14_URILongValue() {
+	typ := []TLNum{8, 2, 256}[verifChoice("typ", 3)]
+	l := 3 + verifChoice("vlen", verifParam("urilonglen", 2))
+	val := make([]byte, l)
+	val[0] = verifByte("first")
+	for i := 1; i < l; i++ {
+		val[i] = []byte{'.', 'A', '%'}[verifChoice("rest", 3)]
+	}
+	n := Name{Component{Typ: typ, Val: val}}
+	var s string
+	verifNoPanic("C14/uri/string-no-panic", func() { s = n.String() })
+	var n2 Name
+	var err error
+	verifNoPanic("C14/uri/parse-no-panic", func() { n2, err = NameFromStr(s) })
+	verifAssert(err == nil, "C14/uri/parses-back")
+	verifAssert(len(n2) == len(n), "C14/uri/same-component-count")
+	for i := 0; i < len(n) && i < len(n2); i++ {
+		verifAssert(n2[i].Typ == n[i].Typ, "C14/uri/same-type")
+		verifAssertBytesEq(n2[i].Val, n[i].Val, "C14/uri/same-value")
+	}
+	verifObserve("s", s)
+}
